@@ -6,7 +6,7 @@ var storeRealStub = map[string]string{
 	"queue.MemoryStore / queue.SQLiteStore (modernc SQLite)": "real",
 	"clock":                    "simulated (Clock via WithNowFunc/WithSQLiteNowFunc and verifclock rewrite)",
 	"SQLite checkpoint ticker": "disabled (checkpoint is a program step)",
-	"long-poll (MaxWait)":      "not exercised (MaxWait=0)",
+	"long-poll (MaxWait)":      "not in this world (MaxWait=0); W-conc has long-polling callers on SQLite",
 	"queue.PostgresStore":      "not executed (no server in the sandbox)",
 }
 
@@ -85,7 +85,7 @@ var concRealStub = map[string]string{
 	"queue.SQLiteStore incl. schema, triggers, pooled connection (database/sql), modernc SQLite": "real",
 	"disk":               "simulated (shim VFS: writes pending until sync; kill and power-loss images; crash at a chosen disk operation of the concurrent block)",
 	"scheduler":          "simulated: callers are real goroutines parked at a scheduling point before every statement of the instrumented SQLiteStore functions (go/ast overlay) and released one at a time by the seeded choice list; a caller waiting for the pooled connection or a mutex is recognised by its Go wait state and left out until it wakes",
-	"clock":              "simulated, constant during the concurrent block",
+	"clock":              "simulated, constant during the concurrent block; in long-poll programs (C03, C05: 2 in 10 SQLite programs) the second caller lets time pass between its calls while the long-polling caller is at rest (between calls, or in its wait), and the long-poll timer (real time) is set out of reach: the waiting caller is woken by enqueues only; a long-poll dequeue counts as one dequeue per attempt it made",
 	"reference":          "the same store driven sequentially on a fresh database (linearizability with respect to its own sequential behaviour, which W-store judges against the contract model)",
 	"memory backend":     "real, in 3 of 10 programs (not for C01): every statement of the exported MemoryStore methods is a scheduling point; a caller waiting for the store mutex is recognised as blocked",
 	"HTTP/gRPC handlers": "not in this world",
@@ -99,6 +99,9 @@ func init() {
 		}
 		if prop != "C01" {
 			prof.Memory = 3 // the memory backend has nothing durable: not for C01
+		}
+		if prop == "C03" || prop == "C05" {
+			prof.LongPoll = 2 // a long-polling consumer woken by another caller's enqueue
 		}
 		prof.TwoHandles = 3 // a second process on the same file (hookaido mcp opens the SQLite queue directly)
 		Register(&CheckSpec{
